@@ -68,7 +68,9 @@ func VerifC02(args []string) {
 	}
 	tree, ok := refRead(src)
 	vfAssert(ok, "harness: skeleton readable by the reference reader")
+	vfRawConsts = mode == "r"
 	w := newWorld(tree, "")
+	vfRawConsts = false
 	w.opsFail = true
 	w.mayWrong = mode == "w"
 
